@@ -1,0 +1,138 @@
+//! Verification hooks (compiled only with `--cfg callbag_verif`).
+//!
+//! Stand-ins for the shared-state primitives used by `take`, `merge` and `combine`, with the
+//! same method signatures, that call a process-global hook before every access.  A test
+//! harness installs a deterministic scheduler as the hook to explore thread interleavings at
+//! the granularity of these accesses.  With no hook installed they are pass-through.
+
+use std::sync::{
+    atomic::{self, Ordering},
+    Arc, RwLock,
+};
+
+type Hook = Arc<dyn Fn(&'static str) + Send + Sync>;
+
+static HOOK: RwLock<Option<Hook>> = RwLock::new(None);
+
+/// Installs (or removes) the hook called before every access to instrumented shared state.
+pub fn set_hook(hook: Option<Hook>) {
+    *HOOK.write().unwrap() = hook;
+}
+
+#[inline]
+pub fn yield_point(site: &'static str) {
+    let hook = HOOK.read().unwrap().clone();
+    if let Some(hook) = hook {
+        hook(site);
+    }
+}
+
+#[derive(Debug, Default)]
+pub struct AtomicUsize(atomic::AtomicUsize);
+
+impl AtomicUsize {
+    pub fn new(v: usize) -> Self {
+        Self(atomic::AtomicUsize::new(v))
+    }
+
+    pub fn load(&self, order: Ordering) -> usize {
+        yield_point("usize.load");
+        self.0.load(order)
+    }
+
+    pub fn store(&self, v: usize, order: Ordering) {
+        yield_point("usize.store");
+        self.0.store(v, order)
+    }
+
+    pub fn fetch_add(&self, v: usize, order: Ordering) -> usize {
+        yield_point("usize.fetch_add");
+        self.0.fetch_add(v, order)
+    }
+
+    pub fn fetch_sub(&self, v: usize, order: Ordering) -> usize {
+        yield_point("usize.fetch_sub");
+        self.0.fetch_sub(v, order)
+    }
+
+    /// One scheduling point for the whole read-modify-write, as for `fetch_add`.
+    pub fn fetch_update<F>(
+        &self,
+        set_order: Ordering,
+        fetch_order: Ordering,
+        f: F,
+    ) -> Result<usize, usize>
+    where
+        F: FnMut(usize) -> Option<usize>,
+    {
+        yield_point("usize.fetch_update");
+        self.0.fetch_update(set_order, fetch_order, f)
+    }
+}
+
+#[derive(Debug, Default)]
+pub struct AtomicBool(atomic::AtomicBool);
+
+impl AtomicBool {
+    pub fn new(v: bool) -> Self {
+        Self(atomic::AtomicBool::new(v))
+    }
+
+    pub fn load(&self, order: Ordering) -> bool {
+        yield_point("bool.load");
+        self.0.load(order)
+    }
+
+    pub fn store(&self, v: bool, order: Ordering) {
+        yield_point("bool.store");
+        self.0.store(v, order)
+    }
+
+    pub fn swap(&self, v: bool, order: Ordering) -> bool {
+        yield_point("bool.swap");
+        self.0.swap(v, order)
+    }
+}
+
+pub struct ArcSwap<T>(arc_swap::ArcSwap<T>);
+
+impl<T: Default> Default for ArcSwap<T> {
+    fn default() -> Self {
+        Self(arc_swap::ArcSwap::default())
+    }
+}
+
+impl<T> ArcSwap<T> {
+    pub fn from_pointee(v: T) -> Self {
+        Self(arc_swap::ArcSwap::from_pointee(v))
+    }
+
+    pub fn load(&self) -> arc_swap::Guard<Arc<T>> {
+        yield_point("arcswap.load");
+        self.0.load()
+    }
+
+    pub fn store(&self, v: Arc<T>) {
+        yield_point("arcswap.store");
+        self.0.store(v)
+    }
+
+    /// Read-copy-update written out as its load / compare-and-swap loop, with a scheduling
+    /// point before each of the two accesses.
+    pub fn rcu<R, F>(&self, mut f: F) -> Arc<T>
+    where
+        F: FnMut(&Arc<T>) -> R,
+        R: Into<Arc<T>>,
+    {
+        loop {
+            yield_point("arcswap.rcu.load");
+            let cur = self.0.load_full();
+            let new: Arc<T> = f(&cur).into();
+            yield_point("arcswap.rcu.cas");
+            let prev = self.0.compare_and_swap(&cur, new);
+            if Arc::ptr_eq(&*prev, &cur) {
+                return cur;
+            }
+        }
+    }
+}
